@@ -62,11 +62,9 @@ TRUSTED = [
     "through Note.midi_pitch, spelling and voice (their own properties are C04/C11); `quantize` is np.round (half to even)",
 ]
 PARTIAL = [
-    "that the contig-mapping search never raises is not proved: voices_total_partial / voices_array_total_partial assume the "
-    "MODELLED search answers (Vosa.run ... = some ...); on every generated case the model and the code agree on the complete "
-    "search result (ids, voices, contigs and streams), so a raise would show as a disagreement or an oracle failure. "
-    "What IS proved for the search: it answers every id exactly once (vosa_covers, no hypothesis left in VosaCovers), "
-    "est_best_connections is a matching with the global-minimum first choice, the cost entries",
+    "voice estimation is now proved total and well-formed for the MODEL of the search (vosa_total, voices_total: no "
+    "hypothesis left); that the code's VoSA is that model is the correspondence (complete search results - ids, voices, "
+    "contigs and streams - compared on every generated case), not a proof",
     "key_transpose / sorted_keys_head need a unique exact maximum (hypothesis UniqueMax; an example proves the claim false "
     "without it: one note is equally C major and C minor for the cbms profiles); ties are decided by binary64 noise in the code",
     "the model's comparison is proved to be the order of the real-number correlation coefficients "
@@ -87,8 +85,9 @@ RULE = ("random note arrays (1-400 rows; simultaneous, overlapping, zero-length 
         "tables (KEYS, chroma x morph, profile-name tables); distinct = distinct case content; non-trivial = at least two rows "
         "(or a table case)")
 LEVEL_TEXT = ("Lean 4 theorems over ALL note lists about an executable model of ps13 stage 1 (complete), of voice estimation "
-              "INCLUDING the contig-mapping search (wrapper proved well-formed for any search result; the modelled search proved "
-              "to answer every id once; its not raising is the one assumption left), of the field/unit selection and profile-name "
+              "INCLUDING the contig-mapping search (the modelled search is proved never to raise on a non-empty array and to answer "
+              "every id exactly once, so one positive, gaplessly numbered voice per note is a theorem without hypotheses about the "
+              "search), of the field/unit selection and profile-name "
               "tables of the wrappers, and of the exact-rational Krumhansl-Schmuckler argmax and ranking; the model is tied to the "
               "code by regenerating ps13's tables, KEYS, the profiles, MAX_COST, the name tables and the unit-preference chain from "
               "the source on each run and by an exact differential run (complete VoSA results included) on random arrays, objects "
